@@ -52,6 +52,8 @@ def new_state():
         "init": None,
         "vid": 0,
         "vals": {},  # version id -> value (to recognise a stale value when one is offered)
+        "last": {},  # lkey -> [ctx, status] of the latest completed execution (rerun requests)
+        "unhandled": [],  # [task, lineage] of failed executions nothing handled (default rerun set)
     }
 
 
@@ -316,8 +318,10 @@ class Ref(object):
                     g["tok"].append([tgt, nl, new_ctx, 0, False])
                     info["targets"].append([tgt, nl, "token"])
         info["handled"] = handled
+        g["last"][lkey(task, lineage)] = [ctx, status]
         if status == "failed" and not handled:
             g["fatal"].append("unhandled failure of %s" % task)
+            g["unhandled"].append([task, lineage])
         return info
 
     def _engine_truth(self, rec, task, tidx, tr):
